@@ -136,6 +136,9 @@ class Ops:
             return ("field", v, name)
         if k == "downcast" and v[2] == "Ok" and name == "0" and v[1][0] == "call" and v[1][1].startswith("core::option::Option<") and v[1][1].endswith("::ok_or"):
             return self.field(self.downcast(v[1][2][0], "Some"), "0")
+        if k == "downcast" and v[2] == "Err" and name == "0" and v[1][0] == "call" and v[1][1].startswith("core::option::Option<") and v[1][1].endswith("::ok_or") \
+                and len(v[1][2]) == 2:
+            return v[1][2][1]           # the error of `opt.ok_or(e)` is e
         if k == "downcast" and v[1][0] == "next" and len(v[1]) == 3 and v[2] == "Some" and name == "0":
             return ("nth", v[1][1], v[1][2])
         if k == "trydown" and name == "0":
